@@ -59,6 +59,8 @@ type Exec struct {
 	tt     *TermTable
 	solver *Solver
 	hard   *Solver
+	cross  *Solver
+	crossFlushed int
 	wid    int
 
 	// per path
@@ -121,6 +123,7 @@ type RunConfig struct {
 	MapOrderAll  bool
 	MapOrderMax  int
 	SchedAll     bool
+	CrossCheck   bool // every unsat that discharges an assertion is re-asked of a second solver
 	HangIsViolation bool // a path that exceeds MaxSteps is reported as a violation (bounded termination)
 	SchedYield   bool // explore every choice at explicit yields only (plus bounded preemption), deterministic elsewhere
 	Preempt      int
@@ -163,6 +166,9 @@ func (e *Exec) Close() {
 	}
 	if e.hard != nil {
 		e.hard.Close()
+	}
+	if e.cross != nil {
+		e.cross.Close()
 	}
 }
 
@@ -471,6 +477,9 @@ func (e *Exec) assertHolds(c *Term, label string, fr *frame) {
 	r, m := e.checkSat(e.tt.Not(c), e.modelVars())
 	switch r {
 	case "unsat":
+		if e.cfg.CrossCheck && !e.pcHard && !c.hard {
+			e.crossCheck(c, label)
+		}
 		e.assertsOK++
 		e.addPC(c) // redundant but keeps later queries small
 		return
@@ -491,6 +500,40 @@ func (e *Exec) assertHolds(c *Term, label string, fr *frame) {
 		panic(pathEnd{"assertion always fails here"})
 	}
 	e.addPC(c)
+}
+
+// crossCheck re-asks "pc and not c" of the other z3 build; a different answer is an engine/solver fault.
+func (e *Exec) crossCheck(c *Term, label string) {
+	if e.cross == nil {
+		s, err := NewSolver(KindZ3New, e.tt, 20000, "")
+		if err != nil {
+			return
+		}
+		e.cross = s
+		e.cross.Push()
+		e.crossFlushed = 0
+	}
+	for e.crossFlushed < len(e.pc) {
+		e.cross.Assert(e.pc[e.crossFlushed])
+		e.crossFlushed++
+	}
+	e.cross.Push()
+	e.cross.Assert(e.tt.Not(c))
+	r := e.cross.Check()
+	e.cross.Pop()
+	e.prog.mu.Lock()
+	e.prog.crossChecked++
+	if r == "sat" {
+		e.prog.crossDisagree++
+	}
+	e.prog.mu.Unlock()
+	if r == "sat" {
+		e.prog.noteInconclusive("solver disagreement on assertion " + label + ": unsat on the main back end, sat on the second one")
+	}
+	if e.cross.dead {
+		e.cross.Close()
+		e.cross = nil
+	}
 }
 
 func (e *Exec) recordViolation(kind, label string, fr *frame, model map[string]uint64) {
@@ -1054,6 +1097,11 @@ func (e *Exec) RunPath(prefix []int64) *PathResult {
 	e.hostState = map[string]interface{}{}
 	e.summaryDepth = 0
 	e.mapOrderAll = e.cfg.MapOrderAll
+	if e.cross != nil {
+		e.cross.Pop()
+		e.cross.Push()
+		e.crossFlushed = 0
+	}
 	e.solver.Push()
 	pr := &PathResult{}
 	entry := e.prog.entryFunc(e.cfg.Entry)
